@@ -134,8 +134,8 @@ def run_lib(ctx, ltexts, rtexts, combo, mode):
     try:
         with case_deadline(30):
             rc, got = real(ltexts, rtexts, combo, mode)
-    except CaseTimeout:
-        ctx.violation("does-not-terminate/%s" % mode, {"case": case, "summary": "no result after 30 s (normal cost: milliseconds)"})
+    except CaseTimeout as e:
+        ctx.violation("does-not-terminate/%s" % mode, {"case": case, "summary": "no result after 30 s of CPU time (normal cost: milliseconds); at %s" % str(e)[:400]})
         return
     except Exception as e:
         ctx.violation("crash/%s/%s" % (type(e).__name__, mode), {"case": case, "summary": "%s: %s" % (type(e).__name__, str(e)[:150])})
